@@ -1,5 +1,6 @@
 import Driver.Util
 import OFModel.Frame
+import OFModel.FrameBlob
 open Lean Driver OF.Frame
 namespace Driver.C10
 
@@ -93,6 +94,45 @@ def runSteps (pinned last : Bool) : Heap termAlg → List (Op termAlg) → List 
     let acc := if last && !ops.isEmpty then acc else stateJson r.1 r.2 jv :: acc
     runSteps pinned last r.1 ops acc
 
+/-! `c10.blob`: the extended model (`OFModel/FrameBlob.lean`): `["fromBlob", n, isJpg, padded, [trueH, trueW], [h, w] | null, fmt]`,
+`["touchImage", i]`, every old op as in `c10.run`; every step reports `raised` besides the state. -/
+
+def pairOf (j : Json) : R (Nat × Nat) := do
+  let a ← arr j
+  match a[0]?, a[1]? with
+  | some x, some y => return (← nat x, ← nat y)
+  | _, _ => throw s!"bad pair {j.compress}"
+
+def parseBOp (j : Json) : R (BOp termAlg) := do
+  let a ← arr j
+  let get (k : Nat) : R Json := match a[k]? with
+    | some v => pure v
+    | none => throw s!"op too short: {j.compress}"
+  match (← str (← get 0)) with
+  | "fromBlob" =>
+    let d ← get 5
+    let dims ← if d.isNull then pure none else do pure (some (← pairOf d))
+    return .fromBlob { e := .blob (← nat (← get 1)), isJpg := (← bool (← get 2)), padded := (← bool (← get 3)), shape := (← pairOf (← get 4)) }
+      dims (← fmtOfStr (← str (← get 6)))
+  | "touchImage" => return .touchImage (← nat (← get 1))
+  | _ => return .old (← parseOp j)
+
+def variantOfStr : String → R Variant
+  | "fixed" => pure .fixed
+  | "freezeAfterAssert" => pure .freezeAfterAssert
+  | "eagerKeepsWritable" => pure .eagerKeepsWritable
+  | s => throw s!"bad variant {s}"
+
+def runBSteps (v : Variant) : BState termAlg → List (BOp termAlg) → List Json → List Json
+  | _, [], acc => acc.reverse
+  | s, op :: ops, acc =>
+    let jv := match op with
+      | .old (.jpg i) => if i < s.heap.nFrm then jpgValue s.heap i else none
+      | _ => none
+    let r := bstep v s op
+    let st := (stateJson r.1.heap r.2.1 jv).setObjVal! "raised" (toJson r.2.2)
+    runBSteps v r.1 ops (st :: acc)
+
 def handle (op : String) (j : Json) : R Json := do
   match op with
   | "c10.run" =>
@@ -100,6 +140,12 @@ def handle (op : String) (j : Json) : R Json := do
     let pinned := (boolF j "pinned").toOption.getD false
     let last := (boolF j "last").toOption.getD false
     return obj [("steps", jarr (runSteps pinned last Heap.empty ops []))]
+  | "c10.blob" =>
+    let ops ← (← arrF j "ops").mapM parseBOp
+    let v ← match (strF j "variant").toOption with
+      | some s => variantOfStr s
+      | none => pure .fixed
+    return obj [("steps", jarr (runBSteps v BState.empty ops []))]
   | _ => throw s!"unknown op {op}"
 
 end Driver.C10
